@@ -125,6 +125,152 @@ func NewSeqScheduler(mode string) graphql.WorkScheduler { return &seqScheduler{m
 
 var schedNames = []string{"stock", "fifo", "lifo", "rand", "conc"}
 
+// ---- scheduling traces for ExecSched_Trace.tla ----
+
+type schedEv struct {
+	Ev   string `json:"ev"`
+	U    int    `json:"u,omitempty"`
+	Us   []int  `json:"us,omitempty"`
+	Kids []int  `json:"kids,omitempty"`
+	E    int    `json:"e"`
+	N    int    `json:"n"`
+	Q    int    `json:"q,omitempty"`
+	S    string `json:"s,omitempty"`
+}
+
+// schedTracer logs one line per action of ExecSched.tla, in the order the lines are written under its lock:
+// `start` before and `finish` after every resolver(u) call of whatever scheduler runs the units, the
+// errorRecorder hooks, and what Execute returned.
+type schedTracer struct {
+	mu    sync.Mutex
+	f     *os.File
+	on    bool
+	run   int // generation: events of an earlier run are late
+	ids   map[*graphql.WorkUnit]int
+	errs  map[string]int
+	late  int
+	maxU  int
+	lines int
+	q     int
+	name  string
+}
+
+var tracer *schedTracer
+
+func (t *schedTracer) emit(e schedEv) {
+	if e.Us == nil && e.Ev == "run" {
+		e.Us = []int{}
+	}
+	if e.Kids == nil && e.Ev == "finish" {
+		e.Kids = []int{}
+	}
+	b, _ := json.Marshal(e)
+	s := string(b)
+	// omitempty drops empty slices: the specification reads them
+	if e.Ev == "run" && len(e.Us) == 0 {
+		s = strings.Replace(s, `{"ev":"run"`, `{"ev":"run","us":[]`, 1)
+	}
+	if e.Ev == "finish" && len(e.Kids) == 0 {
+		s = strings.Replace(s, `"e":`, `"kids":[],"e":`, 1)
+	}
+	t.f.WriteString(s + "\n")
+	t.lines++
+}
+
+func (t *schedTracer) id(u *graphql.WorkUnit) int {
+	if i, ok := t.ids[u]; ok {
+		return i
+	}
+	i := len(t.ids) + 1
+	t.ids[u] = i
+	if i > t.maxU {
+		t.maxU = i
+	}
+	return i
+}
+
+func (t *schedTracer) begin(q int, name string, inner graphql.WorkScheduler) graphql.WorkScheduler {
+	t.mu.Lock()
+	defer t.mu.Unlock()
+	t.run++
+	t.ids, t.errs = map[*graphql.WorkUnit]int{}, map[string]int{}
+	t.emit(schedEv{Ev: "reset", Q: q, S: name})
+	gen := t.run
+	graphql.VerifHook = func(point string, args ...interface{}) {
+		if point != "err.first" && point != "err.record" {
+			return
+		}
+		t.mu.Lock()
+		defer t.mu.Unlock()
+		if gen != t.run {
+			t.late++
+			return
+		}
+		msg := args[1].(error).Error()
+		k, ok := t.errs[msg]
+		if !ok {
+			k = len(t.errs) + 1
+			t.errs[msg] = k
+		}
+		t.emit(schedEv{Ev: map[string]string{"err.first": "errfirst", "err.record": "errrec"}[point], E: k})
+	}
+	return &tracingScheduler{inner: inner, t: t, gen: gen}
+}
+
+func (t *schedTracer) end(err error) {
+	t.mu.Lock()
+	defer t.mu.Unlock()
+	e := 0
+	if err != nil {
+		e = 999
+		if k, ok := t.errs[err.Error()]; ok {
+			e = k
+		}
+	}
+	t.emit(schedEv{Ev: "outcome", E: e})
+	t.run++ // whatever still arrives belongs to a run that is over
+	graphql.VerifHook = nil
+}
+
+type tracingScheduler struct {
+	inner graphql.WorkScheduler
+	t     *schedTracer
+	gen   int
+}
+
+func (s *tracingScheduler) log(f func() schedEv) {
+	s.t.mu.Lock()
+	defer s.t.mu.Unlock()
+	if s.gen != s.t.run {
+		s.t.late++
+		return
+	}
+	s.t.emit(f())
+}
+
+func (s *tracingScheduler) Run(resolver graphql.UnitResolver, units ...*graphql.WorkUnit) {
+	s.log(func() schedEv {
+		e := schedEv{Ev: "run"}
+		for _, u := range units {
+			e.Us = append(e.Us, s.t.id(u))
+		}
+		return e
+	})
+	s.inner.Run(func(u *graphql.WorkUnit) []*graphql.WorkUnit {
+		s.log(func() schedEv { return schedEv{Ev: "start", U: s.t.id(u)} })
+		kids := resolver(u)
+		s.log(func() schedEv {
+			e := schedEv{Ev: "finish", U: s.t.id(u)}
+			for _, k := range kids {
+				e.Kids = append(e.Kids, s.t.id(k))
+			}
+			return e
+		})
+		return kids
+	}, units...)
+	s.log(func() schedEv { return schedEv{Ev: "return"} })
+}
+
 // ---- records ----
 
 type Run struct {
@@ -192,7 +338,14 @@ func execute(schema *graphql.Schema, text string, sched graphql.WorkScheduler) (
 		r.Outcome, r.Err = "reject", "prepare: "+err.Error()
 		return
 	}
+	traced := tracer != nil && tracer.on
+	if traced {
+		sched = tracer.begin(tracer.q, tracer.name, sched)
+	}
 	val, err := graphql.NewExecutor(sched).Execute(context.Background(), schema.Query, nil, q)
+	if traced {
+		tracer.end(err)
+	}
 	if err != nil {
 		r.Outcome = "error"
 		classifyErr(err, &r)
@@ -228,6 +381,7 @@ func Main(args []string) error {
 	worldSeed := fs.Int64("world", 1, "data graph seed")
 	depth := fs.Int("depth", 3, "")
 	queries := fs.String("queries", "", "ndjson of TLC-generated query ASTs to run instead of random ones")
+	schedTrace := fs.String("schedtrace", "", "write the scheduling trace of every run of the main loop here (ExecSched_Trace.tla)")
 	allSched := fs.Int("allsched", 0, "additionally enumerate every schedule of every query depth-first, up to this many per query")
 	if err := fs.Parse(args); err != nil {
 		return err
@@ -288,6 +442,23 @@ func Main(args []string) error {
 	if err != nil {
 		return err
 	}
+	if *schedTrace != "" {
+		f, err := os.Create(*schedTrace)
+		if err != nil {
+			return err
+		}
+		tracer = &schedTracer{f: f}
+		defer func() {
+			// stray goroutines of a scheduler that returned early get a moment to show up
+			time.Sleep(50 * time.Millisecond)
+			tracer.mu.Lock()
+			tracer.emit(schedEv{Ev: "late", N: tracer.late})
+			fmt.Fprintf(os.Stderr, "schedtrace: %d lines, max %d units\n", tracer.lines, tracer.maxU)
+			os.WriteFile(*schedTrace+".maxu", []byte(fmt.Sprint(tracer.maxU)), 0o644)
+			tracer.f.Close()
+			tracer.mu.Unlock()
+		}()
+	}
 	failKeys := w.FailKeys()
 	kinds := []string{"plain", "safe", "wrapped", "panic"}
 	for i, ast := range asts {
@@ -309,7 +480,13 @@ func Main(args []string) error {
 			if j == 0 {
 				sn = "stock"
 			}
+			if tracer != nil {
+				tracer.on, tracer.q, tracer.name = true, rec.I, sn
+			}
 			run := execute(schemaFor(modes), rec.Text, scheduler(sn, r))
+			if tracer != nil {
+				tracer.on = false
+			}
 			run.Modes, run.Sched = modes, sn
 			rec.Runs = append(rec.Runs, run)
 		}
